@@ -166,7 +166,7 @@ func runC01(c *core.Ctx, o Options) {
 				setCall = x
 			}
 		case *ssa.Store:
-			if fa, ok := x.Addr.(*ssa.FieldAddr); ok && an.FieldOf(fa).Name() == "Value" && an.Render(fa.X) == "msg.bodyLength" {
+			if fa, ok := x.Addr.(*ssa.FieldAddr); ok && an.FieldName(an.FieldOf(fa)) == "Value" && an.Render(fa.X) == "msg.bodyLength" {
 				blStore = x
 			}
 		}
@@ -192,7 +192,7 @@ func runC01(c *core.Ctx, o Options) {
 		for _, in := range b.Instrs {
 			if st, ok := in.(*ssa.Store); ok && an.Dominates(cblCall, st) && an.Dominates(st, lastStore) {
 				if fa, ok := st.Addr.(*ssa.FieldAddr); ok {
-					n := an.FieldOf(fa).Name()
+					n := an.FieldName(an.FieldOf(fa))
 					if n == "header" || n == "body" || n == "trailer" || n == "msgType" || n == "beginString" {
 						mutated = n
 					}
